@@ -442,3 +442,5 @@ func workerReplay(t *testing.T, path string) {
 }
 
 func sortStrings(s []string) { sort.Strings(s) }
+
+func isThorough() bool { return os.Getenv("VERIF_TIER") == "thorough" }
